@@ -428,10 +428,16 @@ class Translator(object):
         for x in (a, b):
             if isinstance(x, Py) and not isinstance(
                     x.v, (float, self.np.floating)):
-                # an out-of-range Python int compared with a float array is
-                # version-dependent: only doubles are translated
-                raise Unrecognised("float array compared with a %s" %
-                                   type(x.v).__name__)
+                # A Python int compared with a float64 array: under NEP 50
+                # (NumPy >= 2) the int is weak and becomes float64(int),
+                # rounded to nearest even, exactly like an arithmetic
+                # operand.  Older NumPy versions differ: not translated.
+                # (The differential validation against the installed NumPy
+                # on the boundary doubles guards this reading.)
+                if (isinstance(x.v, bool) or not isinstance(x.v, int) or
+                        int(self.np.__version__.split(".")[0]) < 2):
+                    raise Unrecognised("float array compared with a %s" %
+                                       type(x.v).__name__)
             if not isinstance(x, (Py, F64)):
                 raise Unrecognised("comparison operand at line %d" %
                                    e.lineno)
@@ -1084,11 +1090,17 @@ def _formats(tier):
     for n in (64, 32, 16, 8):
         if tier == "thorough":
             fr = list(range(n, -1, -1))
+            pairs = [(s, f) for f in fr for s in (True, False)]
+        elif n == 8:
+            pairs = [(s, f) for f in (7, 4, 0) for s in (True, False)]
         else:
-            fr = [n - 1, n // 2, 0]
-        for f in fr:
-            for s in (True, False):
-                out.append((s, n, f, True))
+            # quick: the wide formats dominate the solver time; a spread of
+            # (signedness, n_frac) per width instead of the full product
+            pairs = {64: [(True, 63), (True, 0), (False, 32), (False, 0)],
+                     32: [(True, 16), (False, 31), (False, 0)],
+                     16: [(True, 15), (False, 8), (True, 0)]}[n]
+        for (s, f) in pairs:
+            out.append((s, n, f, True))
     if tier == "thorough":
         for n in range(24, 0, -1):
             if n in (8, 16):
@@ -1102,7 +1114,7 @@ def _formats(tier):
 def units(tier, seed):
     us = []
     # z3's timeout is wall-clock: generous, the queries take 0.1-30 s of CPU
-    kw = dict(timeout_ms=300000, path_timeout_s=1500)
+    kw = dict(timeout_ms=600000, path_timeout_s=3000)
     for (s, n, f, numpy) in _formats(tier):
         tag = "%s%d.%d" % ("S" if s else "U", n, f)
         p = dict(signed=s, n_bits=n, n_frac=f)
